@@ -1062,7 +1062,8 @@ CAP_STACK = ("once",                 # f0(c) called once from the module
              "escape-driver-cell",   # f0 returns f1; f1 is called from f4 (variable named x, captured)
              "escape-driver-plain",  # f0 returns f1; f1 is called from f4 (plain variable named x)
              "escape-rec")           # f0 recursive: the outer activation calls the f1 returned by the inner one
-CAP_NAMES = NAMES + ["f3", "f4", "f5"]
+# the names the members use (every activation's variables are a function over this list: keep it small)
+CAP_NAMES = ["v0", "v1", "v2", "p0", "f0", "f1", "f2", "f3", "f4", "f5", "C0", "m0", "self", "o0", "o1", "__init__"]
 
 
 def cap_members():
